@@ -129,6 +129,20 @@ func (u *Unit) call(s *State, c *ssa.CallCommon, instr *ssa.Call, k func(*State)
 		return
 	}
 	name := calleeName(c)
+	if name == "dynamic" {
+		// a function value read from a struct field (callbacks such as the tracer's): named after the field
+		fv := u.val(s, c.Value)
+		if m := dynFieldRe.FindStringSubmatch(fv.S); m != nil {
+			name = "dynamic field " + m[1]
+			if u.p.libContract(name, -1) == nil && u.p.cs.Funcs[name] == nil {
+				if i := strings.LastIndex(m[1], "."); i > 0 {
+					if _, ok := u.p.cs.Funcs["dynamic field "+m[1][:i]+".*"]; ok {
+						u.dynAlias[name] = "dynamic field " + m[1][:i] + ".*"
+					}
+				}
+			}
+		}
+	}
 	var args []Term
 	if c.IsInvoke() {
 		args = append(args, u.val(s, c.Value))
@@ -230,7 +244,11 @@ func (u *Unit) callResolved(s *State, c *ssa.CallCommon, callee *ssa.Function, n
 			return
 		}
 		if callee.Blocks != nil && u.canInline(callee) {
-			u.inline(s, callee, nil, args, sig, instr, k)
+			var cl *Closure
+			if c != nil {
+				cl = s.closures[c.Value] // a closure literal called directly (e.g. deferred): bind its captured variables
+			}
+			u.inline(s, callee, cl, args, sig, instr, k)
 			return
 		}
 	}
@@ -288,7 +306,30 @@ func (u *Unit) callResolved(s *State, c *ssa.CallCommon, callee *ssa.Function, n
 	}
 	// unknown: havoc
 	u.frameClosed(s, name, site, pos)
-	if c == nil || !u.callIsPure(c) {
+	callbackPure := false
+	if extraPost != nil {
+		// a callback library function given only closures that are proved pure writes no Go memory itself
+		callbackPure = true
+		nclos := 0
+		for _, a := range args {
+			if cl, ok := s.closT[a.S]; ok {
+				nclos++
+				if fc := u.p.contractFor(cl.fn); fc == nil || !fc.Pure {
+					callbackPure = false
+				}
+			} else if a.T != nil {
+				if _, isSig := a.T.Underlying().(*types.Signature); isSig {
+					callbackPure = false
+				}
+			}
+		}
+		if nclos == 0 {
+			callbackPure = false
+		}
+	}
+	if callbackPure {
+		u.havocGhostClosures(s, args)
+	} else if c == nil || !u.callIsPure(c) {
 		if u.restricted() {
 			panic(abortUnit{"write set: calls " + name + ", which may write any memory"})
 		}
@@ -308,7 +349,7 @@ func (u *Unit) callResolved(s *State, c *ssa.CallCommon, callee *ssa.Function, n
 		u.note("unmodelled call %s: results unconstrained", name)
 	}
 	res := u.freshResults(s, name, sig)
-	if c == nil || !u.callIsPure(c) {
+	if callbackPure || c == nil || !u.callIsPure(c) {
 		// closures handed to the callee preserve their invariants as long as they return without error;
 		// callees such as filepath.Walk stop at the first error and return it
 		guard := "true"
@@ -583,6 +624,8 @@ func (u *Unit) applyContract(s *State, fc *FuncContract, callee *ssa.Function, n
 				}
 			}
 			u.copyBackInterior(s)
+		} else if u.frameAtCall(s, name) {
+			// the caller's contract bounds what this call may modify
 		} else if mods := fc.modifies(); len(mods) > 0 {
 			// the callee writes only through the listed pointer parameters
 			for _, m := range mods {
@@ -590,12 +633,18 @@ func (u *Unit) applyContract(s *State, fc *FuncContract, callee *ssa.Function, n
 				if !ok {
 					panic(abortUnit{fmt.Sprintf("%s:%d: modifies names unknown parameter %s", fc.File, fc.Line, m)})
 				}
-				if u.restricted() && !u.writeAllowed(a) {
-					panic(abortUnit{"write set: calls " + name + ", which writes through " + a.S})
+				if sl, isSl := a.T.Underlying().(*types.Slice); isSl {
+					// a slice parameter: the callee may overwrite elements of its backing store
+					so := u.ss.sortOf(sl.Elem())
+					s.heaps["r:"+so] = u.fresh("hv.mod", fmt.Sprintf("(Array Int (Array Int %s))", so))
+					continue
 				}
 				pt, ok := a.T.Underlying().(*types.Pointer)
 				if !ok {
-					panic(abortUnit{fmt.Sprintf("%s:%d: modifies parameter %s is not a pointer", fc.File, fc.Line, m)})
+					panic(abortUnit{fmt.Sprintf("%s:%d: modifies parameter %s is not a pointer or slice", fc.File, fc.Line, m)})
+				}
+				if u.restricted() && !u.writeAllowed(a) {
+					panic(abortUnit{"write set: calls " + name + ", which writes through " + a.S})
 				}
 				nv := u.freshT("mod."+m, pt.Elem())
 				saved := u.fc
@@ -910,7 +959,7 @@ func (u *Unit) atCall(s *State, name string, args []Term, site ssa.Instruction, 
 				want, wantOrd = want[:i], n
 			}
 		}
-		if want != name && want != shortCallee(name) {
+		if want != name && want != shortCallee(name) && !strings.HasSuffix(shortCallee(name), "."+want) {
 			continue
 		}
 		if wantOrd != 0 && wantOrd != u.ordinal(site) {
@@ -1083,6 +1132,7 @@ func (u *Unit) expandVariadic(s *State, c *ssa.CallCommon, args []Term) ([]Term,
 	return ex, true
 }
 
+var dynFieldRe = regexp.MustCompile(`^\(T\.([A-Za-z0-9_.]+) `)
 var ifacePtrRe = regexp.MustCompile(`^\(mk_iface \S+ \(box\.Int (\S+)\)\)$`)
 
 func appendUnique(xs []string, x string) []string {
@@ -1233,4 +1283,88 @@ func (u *Unit) markEscaped(s *State, term string) {
 			s.escaped[at.ptr] = true
 		}
 	}
+}
+
+// havocGhostClosures: only the ghost variables the given closures may set (the library function itself sets none).
+func (u *Unit) havocGhostClosures(s *State, args []Term) {
+	may := map[string]bool{}
+	for _, a := range args {
+		if cl, ok := s.closT[a.S]; ok {
+			for k := range u.p.ghostsSetBy(cl.fn) {
+				may[k] = true
+			}
+		}
+	}
+	keys := make([]string, 0, len(s.ghost))
+	for k := range s.ghost {
+		keys = append(keys, k)
+	}
+	sortStrings(keys)
+	for _, k := range keys {
+		if !may["*"] && !may[k] {
+			continue
+		}
+		g := s.ghost[k]
+		s.ghost[k] = Term{S: u.fresh("hv.ghost", g.Sort).S, Sort: g.Sort}
+	}
+}
+
+// frameAtCall: the unit's contract says what a call to the named (impure) callee may modify; only that is havocked.
+func (u *Unit) frameAtCall(s *State, name string) bool {
+	if u.fc == nil {
+		return false
+	}
+	for _, c := range u.fc.Clauses {
+		if c.Kind != "frame-at-call" || (c.Callee != name && c.Callee != shortCallee(name)) {
+			continue
+		}
+		for _, lv := range splitTop(c.Expr, ',') {
+			lv = strings.TrimSpace(lv)
+			if i := strings.LastIndex(lv, "."); i > 0 {
+				// pointer field: x.f
+				env := u.bodyEnv(s, u.fn)
+				base, err := env.term(lv[:i])
+				if err != nil {
+					panic(abortUnit{fmt.Sprintf("%s:%d: %v", c.File, c.Line, err)})
+				}
+				pt, ok := base.T.Underlying().(*types.Pointer)
+				if !ok {
+					panic(abortUnit{fmt.Sprintf("%s:%d: frame-at-call: %s is not a pointer", c.File, c.Line, lv[:i])})
+				}
+				st := pt.Elem().Underlying().(*types.Struct)
+				for fi := 0; fi < st.NumFields(); fi++ {
+					if st.Field(fi).Name() == lv[i+1:] {
+						ft := st.Field(fi).Type()
+						nv := u.freshT("frame."+lv[i+1:], ft)
+						u.typeFacts(s, nv, ft)
+						saved := u.fc
+						u.fc = nil
+						u.store(s, AddrField{AddrDeref{base, pt.Elem()}, fi, pt.Elem()}, nv)
+						u.fc = saved
+						if sl, ok := ft.Underlying().(*types.Slice); ok {
+							k := "r:" + u.ss.sortOf(sl.Elem())
+							s.heaps[k] = u.fresh("hv.frame", fmt.Sprintf("(Array Int (Array Int %s))", u.ss.sortOf(sl.Elem())))
+						}
+					}
+				}
+				continue
+			}
+			env := u.bodyEnv(s, u.fn)
+			cell, ok := env.lookupCell(lv)
+			if !ok {
+				panic(abortUnit{fmt.Sprintf("%s:%d: frame-at-call: unknown variable %s", c.File, c.Line, lv)})
+			}
+			et := cellElemType(cell)
+			nv := u.freshT("frame."+lv, et)
+			u.typeFacts(s, nv, et)
+			s.cells[cell] = nv
+			if sl, ok := et.Underlying().(*types.Slice); ok {
+				k := "r:" + u.ss.sortOf(sl.Elem())
+				s.heaps[k] = u.fresh("hv.frame", fmt.Sprintf("(Array Int (Array Int %s))", u.ss.sortOf(sl.Elem())))
+			}
+		}
+		u.usedAssume = appendUnique(u.usedAssume, fmt.Sprintf("%s: a call to %s modifies at most: %s (it reaches the builder only through the callbacks it is given)", u.fnShort(u.fn), shortCallee(name), c.Expr))
+		return true
+	}
+	return false
 }
